@@ -178,8 +178,15 @@ pub struct Report1 {
 /// Build the reports of one history. None when a surface report would be sent
 /// out of the receiver's unambiguous range (such a history is not in the
 /// property's quantifier: the reference must be within 45 NM).
+thread_local! {
+    /// the time of the first report of a history: 1000 s (small numbers), or a Unix time (1.7e9: what receivers deliver;
+    /// a decoder that keeps times in single precision, or in milliseconds in 32 bits, only shows there)
+    pub static TIME_BASE: std::cell::Cell<f64> = const { std::cell::Cell::new(1000.0) };
+}
+
 pub fn build(tr: &Traj, tp: &Templates, steps: &[Step]) -> Option<Vec<Report1>> {
-    let mut t = 1000.0;
+    let base = TIME_BASE.with(|b| b.get());
+    let mut t = base;
     let refp = tr.reference();
     let mut v = Vec::with_capacity(steps.len());
     for (k, s) in steps.iter().enumerate() {
@@ -190,7 +197,7 @@ pub fn build(tr: &Traj, tp: &Templates, steps: &[Step]) -> Option<Vec<Report1>> 
             v.push(again);
             continue;
         }
-        let (lat, lon) = tr.at(t - 1000.0);
+        let (lat, lon) = tr.at(t - base);
         let surface = tr.surface_at(k);
         if surface {
             // poleward of 88.5 degrees a 45-NM disc spans more than half a surface longitude zone:
@@ -264,7 +271,7 @@ pub fn check_mixed(tr: &Traj, tp: &Templates, alt: Option<&Templates>, steps: &[
     let got = match run_decoder(&refs, tr.reference()) {
         Ok(g) => g,
         Err(p) => {
-            rep.violation(&format!("panic:{}", panic_class(&p)), format!("decode_positions panicked: {p}"), json!({"trajectory": traj_json(tr), "steps": steps_json(steps)}));
+            rep.violation(&format!("panic:{}", panic_class(&p)), format!("decode_positions panicked: {p}"), json!({"trajectory": traj_json(tr), "steps": steps_json(steps), "time_base": TIME_BASE.with(|b| b.get())}));
             return Some(0);
         }
     };
@@ -282,7 +289,7 @@ pub fn check_mixed(tr: &Traj, tp: &Templates, alt: Option<&Templates>, steps: &[
                 rep.violation(
                     &format!("wrong-position:{kind}{prev_kind}"),
                     format!("report {k} ({kind}, t={}) was encoded at ({:.5}, {:.5}) and is given ({lat:.5}, {lon:.5}): {:.0} m off; trajectory {}", r.t, r.truth.0, r.truth.1, d, tr.name),
-                    json!({"trajectory": traj_json(tr), "steps": steps_json(steps)}),
+                    json!({"trajectory": traj_json(tr), "steps": steps_json(steps), "time_base": TIME_BASE.with(|b| b.get())}),
                 );
             }
         }
@@ -543,7 +550,52 @@ pub fn run(ctx: &Ctx, rep: &Report) {
             }
         });
     }
-    rep.part("single aircraft (DF17; DF18 and DF17/DF18 alternating on a sub-catalogue; periodic long flights)", total.load(Ordering::Relaxed), json!({"trajectories": cat.len(), "depth": depth, "reports": steps_total.load(Ordering::Relaxed), "pruned_out_of_range": pruned.load(Ordering::Relaxed)}));
+    // the same histories with Unix-time stamps (1.7e9 s) on every third trajectory
+    {
+        let ucat: Vec<&Traj> = cat.iter().step_by(3).collect();
+        par_items(ctx.threads, ucat.len(), |i| {
+            TIME_BASE.with(|b| b.set(1_700_000_000.0));
+            explore_traj(ucat[i], &[], 1, depth, thorough, true, 0, rep, &total, &steps_total, &hist, &pruned);
+            TIME_BASE.with(|b| b.set(1000.0));
+        });
+    }
+    // a coarse clock: Unix-time bases at several offsets within a 128-s grid cell (the spacing of single-precision
+    // numbers at 1.7e9) x all histories of 3 and 4 reports over gaps of 0.4 .. 100 s, for the fast airborne trajectories
+    {
+        let fast: Vec<&Traj> = cat.iter().filter(|t| matches!(t.phase, Phase::Air) && t.kt >= 700.0).collect();
+        let cgaps = [0.4, 30.0, 60.0, 70.0, 100.0];
+        let bases = [1_700_000_000.0, 1_700_000_040.0, 1_700_000_070.0, 1_700_000_100.5];
+        par_items(ctx.threads, fast.len() * bases.len(), |i| {
+            let (tr, base) = (fast[i / bases.len()], bases[i % bases.len()]);
+            let tp = templates(0x4840d6);
+            TIME_BASE.with(|b| b.set(base));
+            let (mut cnt, mut st) = (0u64, 0u64);
+            for len in [3usize, 4] {
+                let combos = (cgaps.len() * 2).pow(len as u32 - 1) * 2;
+                for mut k in 0..combos {
+                    let mut steps = vec![Step { dt: 0.0, odd: k % 2 == 1, dup: false }];
+                    k /= 2;
+                    for _ in 1..len {
+                        let g = cgaps[k % cgaps.len()];
+                        k /= cgaps.len();
+                        steps.push(Step { dt: g, odd: k % 2 == 1, dup: false });
+                        k /= 2;
+                    }
+                    if check(tr, &tp, &steps, rep).is_some() {
+                        cnt += 1;
+                        st += len as u64;
+                    }
+                    if stopped() {
+                        break;
+                    }
+                }
+            }
+            TIME_BASE.with(|b| b.set(1000.0));
+            total.fetch_add(cnt, Ordering::Relaxed);
+            steps_total.fetch_add(st, Ordering::Relaxed);
+        });
+    }
+    rep.part("single aircraft (DF17; DF18 and DF17/DF18 alternating on a sub-catalogue; periodic long flights; Unix-time stamps on every third trajectory; coarse-clock family)", total.load(Ordering::Relaxed), json!({"trajectories": cat.len(), "depth": depth, "reports": steps_total.load(Ordering::Relaxed), "pruned_out_of_range": pruned.load(Ordering::Relaxed)}));
     // two aircraft: all merge orders of two 3-report sequences
     let sub: Vec<&Traj> = cat.iter().filter(|t| t.reference_nm != Some(40.0)).step_by((cat.len() / if thorough { 24 } else { 10 }).max(1)).collect();
     let mut sub = sub;
@@ -770,6 +822,7 @@ pub fn run(ctx: &Ctx, rep: &Report) {
 pub fn replay(w: &Value, rep: &Report) {
     let parse_steps = |v: &Value| -> Vec<Step> { v.as_array().map(|a| a.iter().map(|s| Step { dt: s[0].as_f64().unwrap_or(0.0), odd: s[1].as_str() == Some("odd"), dup: s[1].as_str() == Some("again") }).collect()).unwrap_or_default() };
     if w.get("trajectory").is_some() {
+        TIME_BASE.with(|b| b.set(w["time_base"].as_f64().unwrap_or(1000.0)));
         let tr = traj_from_json(&w["trajectory"]);
         let steps = parse_steps(&w["steps"]);
         check(&tr, &templates(0x4840d6), &steps, rep);
